@@ -132,3 +132,15 @@ class SNM(TextualDataType):
     """
     def __init__(self, value, highlights=None, validation_level=None):
         super(SNM, self).__init__(value, None, highlights, validation_level)
+
+
+class WD(TextualDataType):
+    """
+    Datatype class for withdrawn fields, with the escaping rules of version 2.7 and later
+    (the truncation character is escaped as well)
+
+    :attr:`max_length` is 199
+    """
+    def __init__(self, value, highlights=None,
+                 validation_level=None):
+        super(WD, self).__init__(value, 199, highlights, validation_level)
